@@ -624,40 +624,59 @@ def Supported (es : List Edge) : Prop := ∀ e ∈ es, ∀ v ∈ e.vars, classif
 theorem mem_popName (d : List String) (x n : String) : n ∈ popName d x ↔ n ∈ d ∧ n ≠ x := by
   simp [popName]
 
+theorem mem_popAll (d ns : List String) (n : String) : n ∈ popAll d ns ↔ n ∈ d ∧ n ∉ ns := by
+  unfold popAll
+  induction ns generalizing d with
+  | nil => simp
+  | cons x ns ih =>
+    simp only [List.foldl_cons, List.mem_cons, not_or]
+    rw [ih, mem_popName]
+    constructor
+    · rintro ⟨⟨a, b⟩, c⟩
+      exact ⟨a, b, c⟩
+    · rintro ⟨a, b, c⟩
+      exact ⟨⟨a, b⟩, c⟩
+
+/-- Names taken off the unconnected list by the variables `vs` of clause `e`. -/
+def Edge.popsOf (pol : PopPolicy) (e : Edge) (vs : List CVar) : List String :=
+  (vs.filter fun v => classify v.prefixes = .flow).flatMap fun v =>
+    popsFor pol e (varName e.lname v.name) (varName e.rname v.name)
+
+/-- All names taken off the unconnected list. -/
+def popped (pol : PopPolicy) (es : List Edge) : List String := es.flatMap fun e => e.popsOf pol e.vars
+
 /-- What a successful run over some variables / edges does to the state. -/
-structure Advances (st st' : St) (pots : List (String × String)) (flows : List (Key × Key)) : Prop where
+structure Advances (st st' : St) (pots : List (String × String)) (flows : List (Key × Key))
+    (pops : List String) : Prop where
   eqs : st'.eqs = st.eqs ++ pots.map fun p => Eqn.pot p.1 p.2
   fc : st'.fc = connectAll st.fc flows
-  disc : ∀ n, n ∈ st'.disc ↔ n ∈ st.disc ∧ ∀ p ∈ flows, p.1.1 ≠ n ∧ p.2.1 ≠ n
+  disc : ∀ n, n ∈ st'.disc ↔ n ∈ st.disc ∧ n ∉ pops
 
-theorem Advances.refl (st : St) : Advances st st [] [] where
+theorem Advances.refl (st : St) : Advances st st [] [] [] where
   eqs := by simp
   fc := by simp [connectAll]
   disc := by simp
 
-theorem Advances.trans {a b c : St} {p1 p2 f1 f2} (h1 : Advances a b p1 f1) (h2 : Advances b c p2 f2) :
-    Advances a c (p1 ++ p2) (f1 ++ f2) where
+theorem Advances.trans {a b c : St} {p1 p2 f1 f2 q1 q2} (h1 : Advances a b p1 f1 q1)
+    (h2 : Advances b c p2 f2 q2) : Advances a c (p1 ++ p2) (f1 ++ f2) (q1 ++ q2) where
   eqs := by rw [h2.eqs, h1.eqs]; simp
   fc := by rw [h2.fc, h1.fc, connectAll_append]
   disc := by
     intro n
     rw [h2.disc, h1.disc]
+    simp only [List.mem_append, not_or]
     constructor
     · rintro ⟨⟨h, ha⟩, hb⟩
-      refine ⟨h, ?_⟩
-      intro p hp
-      rcases List.mem_append.1 hp with q | q
-      · exact ha p q
-      · exact hb p q
-    · rintro ⟨h, hab⟩
-      exact ⟨⟨h, fun p hp => hab p (List.mem_append_left _ hp)⟩,
-        fun p hp => hab p (List.mem_append_right _ hp)⟩
+      exact ⟨h, ha, hb⟩
+    · rintro ⟨h, ha, hb⟩
+      exact ⟨⟨h, ha⟩, hb⟩
 
-theorem stepVars_ok (e : Edge) (vs : List CVar) (st : St)
+theorem stepVars_ok (pol : PopPolicy) (e : Edge) (vs : List CVar) (st : St)
     (h : ∀ v ∈ vs, classify v.prefixes ≠ .bad) :
-    ∃ st', stepVars e st vs = .ok st' ∧ Advances st st' (e.potOf vs) (e.flowOf vs) := by
+    ∃ st', stepVars pol e st vs = .ok st' ∧
+      Advances st st' (e.potOf vs) (e.flowOf vs) (e.popsOf pol vs) := by
   induction vs generalizing st with
-  | nil => exact ⟨st, rfl, by simpa [Edge.potOf, Edge.flowOf] using Advances.refl st⟩
+  | nil => exact ⟨st, rfl, by simpa [Edge.potOf, Edge.flowOf, Edge.popsOf] using Advances.refl st⟩
   | cons v vs ih =>
     have hv := h v (by simp)
     have hvs : ∀ w ∈ vs, classify w.prefixes ≠ .bad := fun w hw => h w (by simp [hw])
@@ -668,42 +687,36 @@ theorem stepVars_ok (e : Edge) (vs : List CVar) (st : St)
       refine ⟨st', by simp [stepVars, stepVar, hc, h1], ?_⟩
       have h0 : Advances st { st with eqs := st.eqs ++
           [.pot (varName e.lname v.name) (varName e.rname v.name)] }
-          [(varName e.lname v.name, varName e.rname v.name)] [] :=
+          [(varName e.lname v.name, varName e.rname v.name)] [] [] :=
         ⟨by simp, by simp [connectAll], by simp⟩
       have := h0.trans h2
-      simpa [Edge.potOf, Edge.flowOf, hc, List.filter_cons] using this
+      simpa [Edge.potOf, Edge.flowOf, Edge.popsOf, hc, List.filter_cons] using this
     | flow =>
       obtain ⟨st', h1, h2⟩ := ih { st with
         fc := connectStep st.fc (varName e.lname v.name, e.linner) (varName e.rname v.name, e.rinner),
-        disc := popName (popName st.disc (varName e.lname v.name)) (varName e.rname v.name) } hvs
+        disc := popAll st.disc (popsFor pol e (varName e.lname v.name) (varName e.rname v.name)) } hvs
       refine ⟨st', by simp [stepVars, stepVar, hc, h1], ?_⟩
       have h0 : Advances st { st with
           fc := connectStep st.fc (varName e.lname v.name, e.linner) (varName e.rname v.name, e.rinner),
-          disc := popName (popName st.disc (varName e.lname v.name)) (varName e.rname v.name) }
-          [] [((varName e.lname v.name, e.linner), (varName e.rname v.name, e.rinner))] := by
-        refine ⟨by simp, by simp [connectAll], ?_⟩
-        intro n
-        simp only [mem_popName, List.mem_singleton, forall_eq]
-        constructor
-        · rintro ⟨⟨a, b⟩, c⟩
-          exact ⟨a, fun q => b q.symm, fun q => c q.symm⟩
-        · rintro ⟨a, b, c⟩
-          exact ⟨⟨a, fun q => b q.symm⟩, fun q => c q.symm⟩
+          disc := popAll st.disc (popsFor pol e (varName e.lname v.name) (varName e.rname v.name)) }
+          [] [((varName e.lname v.name, e.linner), (varName e.rname v.name, e.rinner))]
+          (popsFor pol e (varName e.lname v.name) (varName e.rname v.name)) :=
+        ⟨by simp, by simp [connectAll], fun n => mem_popAll _ _ n⟩
       have := h0.trans h2
-      simpa [Edge.potOf, Edge.flowOf, hc, List.filter_cons] using this
+      simpa [Edge.potOf, Edge.flowOf, Edge.popsOf, hc, List.filter_cons] using this
     | skip =>
       obtain ⟨st', h1, h2⟩ := ih st hvs
       refine ⟨st', by simp [stepVars, stepVar, hc, h1], ?_⟩
-      simpa [Edge.potOf, Edge.flowOf, hc, List.filter_cons] using h2
+      simpa [Edge.potOf, Edge.flowOf, Edge.popsOf, hc, List.filter_cons] using h2
     | bad => exact absurd hc hv
 
-theorem stepVars_bad (e : Edge) (vs : List CVar) (st : St)
-    (h : ∃ v ∈ vs, classify v.prefixes = .bad) : ∃ x, stepVars e st vs = .error x := by
+theorem stepVars_bad (pol : PopPolicy) (e : Edge) (vs : List CVar) (st : St)
+    (h : ∃ v ∈ vs, classify v.prefixes = .bad) : ∃ x, stepVars pol e st vs = .error x := by
   induction vs generalizing st with
   | nil => simp at h
   | cons v vs ih =>
     simp only [stepVars]
-    cases h1 : stepVar e st v with
+    cases h1 : stepVar pol e st v with
     | error x => exact ⟨x, rfl⟩
     | ok st1 =>
       simp only
@@ -715,23 +728,24 @@ theorem stepVars_bad (e : Edge) (vs : List CVar) (st : St)
         simp [stepVar, hb] at h1
       · exact ⟨w, q, hb⟩
 
-theorem stepEdges_ok (es : List Edge) (st : St) (h : Supported es) :
-    ∃ st', stepEdges st es = .ok st' ∧ Advances st st' (potEdges es) (flowEdges es) := by
+theorem stepEdges_ok (pol : PopPolicy) (es : List Edge) (st : St) (h : Supported es) :
+    ∃ st', stepEdges pol st es = .ok st' ∧
+      Advances st st' (potEdges es) (flowEdges es) (popped pol es) := by
   induction es generalizing st with
-  | nil => exact ⟨st, rfl, by simpa [potEdges, flowEdges] using Advances.refl st⟩
+  | nil => exact ⟨st, rfl, by simpa [potEdges, flowEdges, popped] using Advances.refl st⟩
   | cons e es ih =>
-    obtain ⟨st1, h1, a1⟩ := stepVars_ok e e.vars st (h e (by simp))
+    obtain ⟨st1, h1, a1⟩ := stepVars_ok pol e e.vars st (h e (by simp))
     obtain ⟨st2, h2, a2⟩ := ih st1 (fun e' he' => h e' (by simp [he']))
     refine ⟨st2, by simp [stepEdges, h1, h2], ?_⟩
-    simpa [potEdges, flowEdges] using a1.trans a2
+    simpa [potEdges, flowEdges, popped] using a1.trans a2
 
-theorem stepEdges_bad (es : List Edge) (st : St) (h : ¬ Supported es) :
-    ∃ x, stepEdges st es = .error x := by
+theorem stepEdges_bad (pol : PopPolicy) (es : List Edge) (st : St) (h : ¬ Supported es) :
+    ∃ x, stepEdges pol st es = .error x := by
   induction es generalizing st with
   | nil => exact absurd (by intro e he; simp at he) h
   | cons e es ih =>
     by_cases he : ∀ v ∈ e.vars, classify v.prefixes ≠ .bad
-    · obtain ⟨st1, h1, _⟩ := stepVars_ok e e.vars st he
+    · obtain ⟨st1, h1, _⟩ := stepVars_ok pol e e.vars st he
       have : ¬ Supported es := by
         intro hs
         apply h
@@ -747,24 +761,129 @@ theorem stepEdges_bad (es : List Edge) (st : St) (h : ¬ Supported es) :
         apply he
         intro v hv hb
         exact hn ⟨v, hv, hb⟩
-      obtain ⟨x, hx⟩ := stepVars_bad e e.vars st this
+      obtain ⟨x, hx⟩ := stepVars_bad pol e e.vars st this
       exact ⟨x, by simp [stepEdges, hx]⟩
 
 /-- The state at the end of a successful pass. -/
 theorem expand_ok (inp : Input) (eqs : List Eqn) (h : expand inp = .ok eqs) :
-    Supported inp.edges ∧ ∃ st, stepEdges (St.init inp) inp.edges = .ok st ∧ eqs = finish st ∧
-      Advances (St.init inp) st (potEdges inp.edges) (flowEdges inp.edges) ∧
+    Supported inp.edges ∧ ∃ st, stepEdges inp.policy (St.init inp) inp.edges = .ok st ∧
+      eqs = finish st ∧
+      Advances (St.init inp) st (potEdges inp.edges) (flowEdges inp.edges)
+        (popped inp.policy inp.edges) ∧
       MapInv (flowEdges inp.edges) st.fc := by
   by_cases hs : Supported inp.edges
-  · obtain ⟨st, h1, a⟩ := stepEdges_ok inp.edges (St.init inp) hs
+  · obtain ⟨st, h1, a⟩ := stepEdges_ok inp.policy inp.edges (St.init inp) hs
     refine ⟨hs, st, h1, ?_, a, ?_⟩
     · simp only [expand, h1] at h
       exact (Except.ok.inj h).symm
     · have := (MapInv.empty (κ := Key)).connectAll (flowEdges inp.edges)
       rw [a.fc]
       simpa [St.init] using this
-  · obtain ⟨x, hx⟩ := stepEdges_bad inp.edges (St.init inp) hs
+  · obtain ⟨x, hx⟩ := stepEdges_bad inp.policy inp.edges (St.init inp) hs
     simp [expand, hx] at h
+
+/-! ### which names are popped -/
+
+/-- A flow variable of a top-level connector occurs in a clause of the top class. -/
+def TouchedTop (es : List Edge) (f : String) : Prop :=
+  ∃ e ∈ es, ∃ v ∈ e.vars, classify v.prefixes = .flow ∧
+    ((e.ltop = true ∧ f = varName e.lname v.name) ∨ (e.rtop = true ∧ f = varName e.rname v.name))
+
+theorem touched_flowEdges (es : List Edge) (f : String) (b : Bool) :
+    Touched (flowEdges es) (f, b) ↔
+      ∃ e ∈ es, ∃ v ∈ e.vars, classify v.prefixes = .flow ∧
+        ((f = varName e.lname v.name ∧ b = e.linner) ∨ (f = varName e.rname v.name ∧ b = e.rinner)) := by
+  unfold Touched flowEdges Edge.flowOf
+  constructor
+  · rintro ⟨p, hp, hk⟩
+    obtain ⟨e, he, hp⟩ := List.mem_flatMap.1 hp
+    obtain ⟨v, hv, rfl⟩ := List.mem_map.1 hp
+    obtain ⟨hv1, hv2⟩ := List.mem_filter.1 hv
+    refine ⟨e, he, v, hv1, by simpa using hv2, ?_⟩
+    rcases hk with hk | hk
+    · simp only [Prod.mk.injEq] at hk
+      exact Or.inl ⟨hk.1.symm, hk.2.symm⟩
+    · simp only [Prod.mk.injEq] at hk
+      exact Or.inr ⟨hk.1.symm, hk.2.symm⟩
+  · rintro ⟨e, he, v, hv, hc, hk⟩
+    refine ⟨((varName e.lname v.name, e.linner), (varName e.rname v.name, e.rinner)), ?_, ?_⟩
+    · apply List.mem_flatMap.2
+      refine ⟨e, he, List.mem_map.2 ⟨v, List.mem_filter.2 ⟨hv, by simpa using hc⟩, rfl⟩⟩
+    · rcases hk with ⟨h1, h2⟩ | ⟨h1, h2⟩
+      · exact Or.inl (by rw [h1, h2])
+      · exact Or.inr (by rw [h1, h2])
+
+theorem mem_popped (pol : PopPolicy) (es : List Edge) (f : String) :
+    f ∈ popped pol es ↔ ∃ e ∈ es, ∃ v ∈ e.vars, classify v.prefixes = .flow ∧
+      f ∈ popsFor pol e (varName e.lname v.name) (varName e.rname v.name) := by
+  unfold popped Edge.popsOf
+  constructor
+  · intro h
+    obtain ⟨e, he, h⟩ := List.mem_flatMap.1 h
+    obtain ⟨v, hv, h⟩ := List.mem_flatMap.1 h
+    obtain ⟨hv1, hv2⟩ := List.mem_filter.1 hv
+    exact ⟨e, he, v, hv1, by simpa using hv2, h⟩
+  · rintro ⟨e, he, v, hv, hc, h⟩
+    exact List.mem_flatMap.2 ⟨e, he, List.mem_flatMap.2
+      ⟨v, List.mem_filter.2 ⟨hv, by simpa using hc⟩, h⟩⟩
+
+/-- The code as it stands pops a name as soon as it occurs in a connection, under either face. -/
+theorem mem_popped_byName (es : List Edge) (f : String) :
+    f ∈ popped .byName es ↔ ∃ b, Touched (flowEdges es) (f, b) := by
+  rw [mem_popped]
+  constructor
+  · rintro ⟨e, he, v, hv, hc, h⟩
+    simp only [popsFor, List.mem_cons, List.not_mem_nil, or_false] at h
+    rcases h with h | h
+    · exact ⟨e.linner, (touched_flowEdges es f _).2 ⟨e, he, v, hv, hc, Or.inl ⟨h, rfl⟩⟩⟩
+    · exact ⟨e.rinner, (touched_flowEdges es f _).2 ⟨e, he, v, hv, hc, Or.inr ⟨h, rfl⟩⟩⟩
+  · rintro ⟨b, hb⟩
+    obtain ⟨e, he, v, hv, hc, h⟩ := (touched_flowEdges es f b).1 hb
+    refine ⟨e, he, v, hv, hc, ?_⟩
+    simp only [popsFor, List.mem_cons, List.not_mem_nil, or_false]
+    rcases h with h | h
+    · exact Or.inl h.1
+    · exact Or.inr h.1
+
+/-- With the proposed fix a name is popped iff its inside face is connected or it belongs to a
+    top-level connector that is connected. -/
+theorem mem_popped_byFace (es : List Edge) (f : String) :
+    f ∈ popped .byFace es ↔ Touched (flowEdges es) (f, true) ∨ TouchedTop es f := by
+  rw [mem_popped]
+  constructor
+  · rintro ⟨e, he, v, hv, hc, h⟩
+    simp only [popsFor, List.mem_append] at h
+    rcases h with h | h
+    · split at h
+      · rename_i hcond
+        simp only [List.mem_singleton] at h
+        rcases Bool.or_eq_true_iff.1 hcond with q | q
+        · exact Or.inl ((touched_flowEdges es f true).2 ⟨e, he, v, hv, hc, Or.inl ⟨h, q.symm⟩⟩)
+        · exact Or.inr ⟨e, he, v, hv, hc, Or.inl ⟨q, h⟩⟩
+      · simp at h
+    · split at h
+      · rename_i hcond
+        simp only [List.mem_singleton] at h
+        rcases Bool.or_eq_true_iff.1 hcond with q | q
+        · exact Or.inl ((touched_flowEdges es f true).2 ⟨e, he, v, hv, hc, Or.inr ⟨h, q.symm⟩⟩)
+        · exact Or.inr ⟨e, he, v, hv, hc, Or.inr ⟨q, h⟩⟩
+      · simp at h
+  · rintro (h | ⟨e, he, v, hv, hc, h⟩)
+    · obtain ⟨e, he, v, hv, hc, h⟩ := (touched_flowEdges es f true).1 h
+      refine ⟨e, he, v, hv, hc, ?_⟩
+      simp only [popsFor, List.mem_append]
+      rcases h with ⟨h1, h2⟩ | ⟨h1, h2⟩
+      · left
+        simp [← h2, h1]
+      · right
+        simp [← h2, h1]
+    · refine ⟨e, he, v, hv, hc, ?_⟩
+      simp only [popsFor, List.mem_append]
+      rcases h with ⟨h1, h2⟩ | ⟨h1, h2⟩
+      · left
+        simp [h1, h2]
+      · right
+        simp [h1, h2]
 
 /-! ### semantics of the derived equations -/
 
@@ -878,14 +997,106 @@ theorem touched_key_iff (es : List (Key × Key)) (n : String) :
 
 /-! ### reference semantics and a running example (used by `Props/C09.lean`) -/
 
-/-- Reference connection semantics of a flat class, stated without the algorithm: potentials
-    are equal throughout every connected component of the potential-level edge graph; for every
-    connected component of the flow-level graph the inside flows minus the outside flows sum
-    to zero; every flow symbol that occurs in no connection is zero. -/
-structure RefSol {K : Type} [AddCommGroup K] (inp : Input) (σ : String → K) : Prop where
+section Ref
+variable {K : Type} [AddCommGroup K]
+
+/-- Reference connection semantics of a flat class as the property text states it, without the
+    algorithm: potentials are equal throughout every connected component of the potential-level
+    edge graph; for every connected component of the flow-level graph the inside flows minus the
+    outside flows sum to zero; every flow symbol that occurs in no connection is zero. -/
+structure RefSol (inp : Input) (σ : String → K) : Prop where
   potential : ∀ a b, Conn (potEdges inp.edges) a b → σ a = σ b
   flow : ∀ S, IsComponent (flowEdges inp.edges) S → (S.map (signed σ)).sum = 0
   unconnected : ∀ f ∈ inp.flowSyms, (∀ b, ¬ Touched (flowEdges inp.edges) (f, b)) → σ f = 0
+
+/-- The same with Modelica's face-wise rule for hierarchical models: a flow is zero when the
+    *inside* face of its connector is in no connection, unless it belongs to a top-level connector
+    that occurs in a connection (which is left to the environment). -/
+structure RefSolFace (inp : Input) (σ : String → K) : Prop where
+  potential : ∀ a b, Conn (potEdges inp.edges) a b → σ a = σ b
+  flow : ∀ S, IsComponent (flowEdges inp.edges) S → (S.map (signed σ)).sum = 0
+  unconnected : ∀ f ∈ inp.flowSyms, ¬ Touched (flowEdges inp.edges) (f, true) →
+    ¬ TouchedTop inp.edges f → σ f = 0
+
+/-- The solution set of the derived equations, with the zero equations still phrased through the
+    list of popped names (common to both pop policies). -/
+theorem sol_core (inp : Input) (eqs : List Eqn) (h : expand inp = .ok eqs) (σ : String → K) :
+    Sol eqs σ ↔
+      (∀ a b, Conn (potEdges inp.edges) a b → σ a = σ b) ∧
+      (∀ S, IsComponent (flowEdges inp.edges) S → (S.map (signed σ)).sum = 0) ∧
+      (∀ f ∈ inp.flowSyms, f ∉ popped inp.policy inp.edges → σ f = 0) := by
+  obtain ⟨_, st, _, he, adv, inv⟩ := expand_ok inp eqs h
+  subst he
+  obtain ⟨comp, cover, _⟩ := inv.sets
+  unfold finish
+  rw [sol_append, sol_append]
+  have hp : Sol st.eqs σ ↔ ∀ a b, Conn (potEdges inp.edges) a b → σ a = σ b := by
+    rw [adv.eqs]
+    simp only [St.init, List.nil_append, Sol, List.mem_map]
+    constructor
+    · intro h1 a b c
+      exact conn_eq_of_edges _ σ (fun p hp => h1 _ ⟨p, hp, rfl⟩) c
+    · rintro h1 e ⟨p, hp, rfl⟩
+      exact h1 p.1 p.2 (.edge hp)
+  have hf : Sol ((distinctSets st.fc).map sumEqn) σ ↔
+      ∀ S, IsComponent (flowEdges inp.edges) S → (S.map (signed σ)).sum = 0 := by
+    simp only [Sol, List.mem_map]
+    constructor
+    · intro h1 S' hS'
+      obtain ⟨nd', k0, t0, m0⟩ := hS'
+      obtain ⟨S, hS, hk0⟩ := cover k0 t0
+      obtain ⟨nd, k1, _, m1⟩ := comp S hS
+      have hperm : S.Perm S' := by
+        rw [List.perm_ext_iff_of_nodup nd nd']
+        intro k
+        rw [m1, m0]
+        have c10 : Conn (flowEdges inp.edges) k1 k0 := (m1 k0).1 hk0
+        constructor
+        · exact fun c => c10.symm.trans c
+        · exact fun c => c10.trans c
+      have := (sumEqn_holds S σ).1 (h1 _ ⟨S, hS, rfl⟩)
+      rw [← perm_sum (hperm.map (signed σ))]
+      exact this
+    · rintro h1 e ⟨S, hS, rfl⟩
+      exact (sumEqn_holds S σ).2 (h1 S (comp S hS))
+  have hz : Sol (st.disc.map Eqn.zero) σ ↔
+      ∀ f ∈ inp.flowSyms, f ∉ popped inp.policy inp.edges → σ f = 0 := by
+    simp only [Sol, List.mem_map]
+    constructor
+    · intro h1 f hf ht
+      have : f ∈ st.disc := (adv.disc f).2 ⟨hf, ht⟩
+      exact h1 _ ⟨f, this, rfl⟩
+    · rintro h1 e ⟨f, hf, rfl⟩
+      have := (adv.disc f).1 hf
+      exact h1 f this.1 this.2
+  rw [hp, hf, hz]
+  constructor
+  · rintro ⟨⟨a, b⟩, c⟩
+    exact ⟨a, b, c⟩
+  · rintro ⟨a, b, c⟩
+    exact ⟨⟨a, b⟩, c⟩
+
+/-- Which `f = 0` equations the pass emits, through the list of popped names. -/
+theorem zero_mem_core (inp : Input) (eqs : List Eqn) (h : expand inp = .ok eqs) (f : String) :
+    Eqn.zero f ∈ eqs ↔ f ∈ inp.flowSyms ∧ f ∉ popped inp.policy inp.edges := by
+  obtain ⟨_, st, _, he, adv, _⟩ := expand_ok inp eqs h
+  subst he
+  have hd := adv.disc f
+  simp only [St.init] at hd
+  rw [← hd]
+  simp only [finish, List.mem_append, List.mem_map]
+  constructor
+  · rintro ((h1 | ⟨S, _, h1⟩) | ⟨n, hn, h1⟩)
+    · rw [adv.eqs] at h1
+      simp [St.init] at h1
+    · unfold sumEqn at h1
+      split at h1 <;> cases h1
+    · cases h1
+      exact hn
+  · intro h1
+    exact Or.inr ⟨f, h1, rfl⟩
+
+end Ref
 
 /-- A small circuit: two component connectors and a top-level connector in one set. -/
 def exP : List CVar := [⟨"v", []⟩, ⟨"i", ["flow"]⟩]
@@ -893,5 +1104,10 @@ def exInput : Input where
   flowSyms := ["o.i", "c1.a.i", "c1.b.i", "c2.a.i"]
   edges := [⟨"", ["c1", "a"], ["c2", "a"], exP⟩, ⟨"", ["o"], ["c1", "a"], exP⟩]
 
+/-- A hierarchical class: `c.p` is connected inside `C` (outside face) and nowhere in the top class. -/
+def exNested (pol : PopPolicy) : Input where
+  flowSyms := ["c.p.i", "c.r.a.i"]
+  edges := [⟨"c.", ["p"], ["r", "a"], exP⟩]
+  policy := pol
 
 end PymocaVerif.Connect
